@@ -1,2 +1,3 @@
 pub mod val;
 pub mod bytes;
+pub mod near;
